@@ -397,7 +397,9 @@ func c17ReadOnly(sh *explore.Shard) {
 				sh.C.Evals++
 				for _, inv := range fsn.Log() {
 					sh.C.Validated++
-					if inv.Kind == modelgit.KUnexpected {
+					if inv.Kind == modelgit.KUnexpected && modelgit.LooksReadOnly(inv.Args) {
+						sh.C.Violate(explore.Violation{Property: "C17", Class: "HARNESS/unmodelled-git-command", Msg: fmt.Sprintf("the model git does not implement the read-only command %q (extend harness/modelgit)", inv.Args), Case: caseJSON(idx, map[string]any{"args": args})})
+					} else if inv.Kind == modelgit.KUnexpected {
 						sh.C.Violate(explore.Violation{Property: "C17", Class: "command-whitelist", Msg: fmt.Sprintf("git was invoked outside the read-only plumbing whitelist: %q", inv.Args), Case: caseJSON(idx, map[string]any{"args": args})})
 					}
 				}
